@@ -504,7 +504,9 @@ theorem refine_callsR (P : Program) (nm : List String → String) (O : Oracle) (
                 (resolveBindsT st self sib (P.insOf c.callee) c)
                 (noSplitOf c.id r.1.exp && noMergeOf c.id r.1.exp) r.2] := by
           intro f hf
-          simp only [instsTList, instsT, List.append_nil, List.map_flatMap, hidxA f hf]
+          have hne' : ixs.isEmpty = false := by cases ixs <;> simp_all
+          simp only [instsTList, instsT, List.append_nil, List.map_flatMap, hidxA f hf, hne', Bool.false_eq_true,
+            if_false]
           apply flatMap_congr_mem
           intro ix hix
           exact (hchild ix hix).2.2 _ (hf.fset c.id ix habove)
